@@ -7,13 +7,13 @@ namespace Nervus.Crash
 
 /-- the memory assembled by `IdMap::load` -/
 def bootMem (vol : PImg) : Mem :=
-  { pm := vol.hdr, idStart := vol.hdr.i2eStart, idLen := vol.hdr.i2eLen,
+  { pm := vol.hdr, bm := vol.bm, idStart := vol.hdr.i2eStart, idLen := vol.hdr.i2eLen,
     exts := (List.range (if vol.hdr.i2eStart = 0 then 0 else vol.hdr.i2eLen)).map (getSlot vol.i2e) }
 
 /-- what the first half of open returns on a fully created database -/
 def bootedRes (vol : PImg) (es : List Nat) : BootRes :=
   { acts := [memA (.setPm vol.hdr), memA (.loaded (bootMem vol)), memA (.catalog vol.hdr.catRoot es)],
-    ps := { pm := vol.hdr, len := vol.len }, catRoot := vol.hdr.catRoot, entries := es, m0 := bootMem vol }
+    ps := { pm := vol.hdr, len := vol.len, bm := vol.bm }, catRoot := vol.hdr.catRoot, entries := es, m0 := bootMem vol }
 
 /-- on a fully created database the first half of open performs no I/O -/
 theorem bootA_booted (cfg : Cfg) (vol : PImg) (hb : Booted vol) :
@@ -31,7 +31,7 @@ theorem bootA_booted (cfg : Cfg) (vol : PImg) (hb : Booted vol) :
 /-- the memory `open` has assembled when the log has been scanned and the segments are loaded -/
 def replayMem (vol : PImg) (b : BootRes) (sc : RScan) : Mem :=
   { b.m0 with
-    pm := b.ps.pm, catRootM := b.catRoot, catEntries := b.entries,
+    pm := b.ps.pm, bm := b.ps.bm, catRootM := b.catRoot, catEntries := b.entries,
     segs := sc.segs.map (fun k => (k, segEdges vol k)),
     epoch := sc.epoch, ckpt := sc.ckpt, proot := sc.proot, ptop := sc.ptop,
     nextTxid := max (sc.maxTxid + 1) 1 }
@@ -90,10 +90,11 @@ theorem open_mem (m1 : Mem) (L : List MemUpd) (rs : List Run) (hid : ∀ u ∈ L
     ((L ++ [MemUpd.setRuns rs]).foldl applyUpd m1).walOpen = m1.walOpen ∧
     ((L ++ [MemUpd.setRuns rs]).foldl applyUpd m1).tailChecked = m1.tailChecked ∧
     ((L ++ [MemUpd.setRuns rs]).foldl applyUpd m1).ptop = m1.ptop ∧
-    ((L ++ [MemUpd.setRuns rs]).foldl applyUpd m1).epoch = m1.epoch := by
+    ((L ++ [MemUpd.setRuns rs]).foldl applyUpd m1).epoch = m1.epoch ∧
+    ((L ++ [MemUpd.setRuns rs]).foldl applyUpd m1).bm = lastBm L m1.bm := by
   simp only [List.foldl_append, List.foldl_cons, List.foldl_nil]
   rw [foldl_idUpd _ hid]
-  exact ⟨rfl, rfl, rfl, rfl, rfl, rfl, rfl, rfl, rfl, rfl, rfl, rfl⟩
+  exact ⟨rfl, rfl, rfl, rfl, rfl, rfl, rfl, rfl, rfl, rfl, rfl, rfl, rfl⟩
 
 /-- **recovery is crash-safe and complete**: on flat files representing `T`, every prefix of the
     I/O steps of `open` leaves every crash image representing `T`; `open` succeeds and the handle
@@ -115,7 +116,7 @@ theorem open_safe {cfg : Cfg} {T : List Tx} {fs : FS} (hsync : cfg.syncSlot = tr
   have hopen : openA cfg fs.pd fs.wf =
       [memA (.setPm fs.pd.hdr), memA (.loaded (bootMem fs.pd)), memA (.catalog fs.pd.hdr.catRoot es)] ++
       ([memA (.loaded (replayMem fs.pd (bootedRes fs.pd es) (scan cs)))] ++
-        (nodesA cfg { pm := fs.pd.hdr, len := fs.pd.len } { start := fs.pd.hdr.i2eStart, len := fs.pd.hdr.i2eLen }
+        (nodesA cfg { pm := fs.pd.hdr, len := fs.pd.len, bm := fs.pd.bm } { start := fs.pd.hdr.i2eStart, len := fs.pd.hdr.i2eLen }
           ((allNodes T).drop fs.pd.hdr.i2eLen)).1 ++ [memA (.setRuns (logRuns (scan cs).ckpt cs))]) := by
     unfold openA
     rw [hboot]
@@ -134,19 +135,19 @@ theorem open_safe {cfg : Cfg} {T : List Tx} {fs : FS} (hsync : cfg.syncSlot = tr
   have hnp : 1 ≤ fs.pd.hdr.nextPage := by have := hp.booted.nextPage; omega
   have hdrop : (allNodes T).drop fs.pd.hdr.i2eLen = (allNodes T).drop fs.pd.hdr.i2eLen ++ [] := by simp
   have sa := node_phase (cfg := cfg) (T := T) (cs := cs) (c := c) (k := fs.pd.hdr.i2eLen) hp.booted hsync fs
-    { pm := fs.pd.hdr, len := fs.pd.len } { start := fs.pd.hdr.i2eStart, len := fs.pd.hdr.i2eLen }
-    ((allNodes T).drop fs.pd.hdr.i2eLen) [] hq hcom hlog hst hdrop hB ⟨hin, rfl⟩ hpm rfl rfl rfl hnp hp.lo hl
+    { pm := fs.pd.hdr, len := fs.pd.len, bm := fs.pd.bm } { start := fs.pd.hdr.i2eStart, len := fs.pd.hdr.i2eLen }
+    ((allNodes T).drop fs.pd.hdr.i2eLen) [] hq hcom hlog hst hdrop hB ⟨hin, SameKey.refl _, Nat.le_refl _⟩ hpm rfl rfl rfl hnp hp.lo hl (Nat.le_refl _)
   obtain ⟨nf, _, hBF, hSF, _, lenF, _, idsF, _⟩ :=
     nodesA_safe (cfg := cfg) (N := allNodes T) (c := c) (p0 := fs.pd) hp.booted hsync ((allNodes T).drop fs.pd.hdr.i2eLen)
-      fs.pd.hdr.i2eLen fs { pm := fs.pd.hdr, len := fs.pd.len } { start := fs.pd.hdr.i2eStart, len := fs.pd.hdr.i2eLen } []
-      hdrop hB ⟨hin, rfl⟩ hpm rfl rfl rfl hnp hp.lo hl
+      fs.pd.hdr.i2eLen fs { pm := fs.pd.hdr, len := fs.pd.len, bm := fs.pd.bm } { start := fs.pd.hdr.i2eStart, len := fs.pd.hdr.i2eLen } []
+      hdrop hB ⟨hin, SameKey.refl _, Nat.le_refl _⟩ hpm rfl rfl rfl hnp hp.lo hl (Nat.le_refl _)
   have hMF := memFacts_nodesA (cfg := cfg) (N := allNodes T) (c := c) (p0 := fs.pd) hp.booted hsync ((allNodes T).drop fs.pd.hdr.i2eLen)
-      fs.pd.hdr.i2eLen fs { pm := fs.pd.hdr, len := fs.pd.len } { start := fs.pd.hdr.i2eStart, len := fs.pd.hdr.i2eLen } []
-      hdrop hB ⟨hin, rfl⟩ hpm rfl rfl rfl hnp hp.lo hl
-  obtain ⟨_, hpg⟩ := (pagerActs_nodes cfg ((allNodes T).drop fs.pd.hdr.i2eLen) { pm := fs.pd.hdr, len := fs.pd.len }
+      fs.pd.hdr.i2eLen fs { pm := fs.pd.hdr, len := fs.pd.len, bm := fs.pd.bm } { start := fs.pd.hdr.i2eStart, len := fs.pd.hdr.i2eLen } []
+      hdrop hB ⟨hin, SameKey.refl _, Nat.le_refl _⟩ hpm rfl rfl rfl hnp hp.lo hl (Nat.le_refl _)
+  obtain ⟨_, hpg⟩ := (pagerActs_nodes cfg ((allNodes T).drop fs.pd.hdr.i2eLen) { pm := fs.pd.hdr, len := fs.pd.len, bm := fs.pd.bm }
     { start := fs.pd.hdr.i2eStart, len := fs.pd.hdr.i2eLen }).facts
   have hio : ioSteps (openA cfg fs.pd fs.wf) =
-      ioSteps (nodesA cfg { pm := fs.pd.hdr, len := fs.pd.len } { start := fs.pd.hdr.i2eStart, len := fs.pd.hdr.i2eLen }
+      ioSteps (nodesA cfg { pm := fs.pd.hdr, len := fs.pd.len, bm := fs.pd.bm } { start := fs.pd.hdr.i2eStart, len := fs.pd.hdr.i2eLen }
         ((allNodes T).drop fs.pd.hdr.i2eLen)).1 := by
     rw [hopen]
     simp only [List.cons_append, List.nil_append, ioSteps]
@@ -160,7 +161,7 @@ theorem open_safe {cfg : Cfg} {T : List Tx} {fs : FS} (hsync : cfg.syncSlot = tr
   have hmu : memUpds (openA cfg fs.pd fs.wf) =
       [MemUpd.setPm fs.pd.hdr, .loaded (bootMem fs.pd), .catalog fs.pd.hdr.catRoot es,
         .loaded (replayMem fs.pd (bootedRes fs.pd es) (scan cs))] ++
-      (memUpds (nodesA cfg { pm := fs.pd.hdr, len := fs.pd.len } { start := fs.pd.hdr.i2eStart, len := fs.pd.hdr.i2eLen }
+      (memUpds (nodesA cfg { pm := fs.pd.hdr, len := fs.pd.len, bm := fs.pd.bm } { start := fs.pd.hdr.i2eStart, len := fs.pd.hdr.i2eLen }
         ((allNodes T).drop fs.pd.hdr.i2eLen)).1 ++ [MemUpd.setRuns (logRuns (scan cs).ckpt cs)]) := by
     rw [hopen]
     simp only [List.cons_append, List.nil_append, memUpds]
@@ -169,7 +170,7 @@ theorem open_safe {cfg : Cfg} {T : List Tx} {fs : FS} (hsync : cfg.syncSlot = tr
   obtain ⟨hwF, hdF, hrF⟩ := steps_pager_wal _ hpg fs
   refine ⟨hfail, by rw [hio]; exact sa, by rw [hio]; exact hwF, cs, c, ?_⟩
   rw [hio, hmu]
-  generalize hfsF : fs.steps (ioSteps (nodesA cfg { pm := fs.pd.hdr, len := fs.pd.len }
+  generalize hfsF : fs.steps (ioSteps (nodesA cfg { pm := fs.pd.hdr, len := fs.pd.len, bm := fs.pd.bm }
     { start := fs.pd.hdr.i2eStart, len := fs.pd.hdr.i2eLen } ((allNodes T).drop fs.pd.hdr.i2eLen)).1) = fsF at hBF hSF hwF hdF hrF
   have hlenN : fs.pd.hdr.i2eLen + ((allNodes T).drop fs.pd.hdr.i2eLen).length = (allNodes T).length := by
     simp; omega
@@ -190,14 +191,17 @@ theorem open_safe {cfg : Cfg} {T : List Tx} {fs : FS} (hsync : cfg.syncSlot = tr
   have e_tx : m1.nextTxid = max ((scan cs).maxTxid + 1) 1 := by rw [← hm1]; rfl
   have e_wal : m1.walOpen = true := by rw [← hm1]; rfl
   have e_tc : m1.tailChecked = false := by rw [← hm1]; rfl
-  obtain ⟨o1, o2, o3, o4, o5, o6, o7, o8, o9, o10, o11, o12⟩ := open_mem m1 _ (logRuns (scan cs).ckpt cs) hMF.idupd
-  generalize (memUpds (nodesA cfg { pm := fs.pd.hdr, len := fs.pd.len } { start := fs.pd.hdr.i2eStart, len := fs.pd.hdr.i2eLen }
+  have e_bm : m1.bm = fs.pd.bm := by rw [← hm1]; rfl
+  obtain ⟨o1, o2, o3, o4, o5, o6, o7, o8, o9, o10, o11, o12, o13⟩ := open_mem m1 _ (logRuns (scan cs).ckpt cs) hMF.idupd
+  generalize (memUpds (nodesA cfg { pm := fs.pd.hdr, len := fs.pd.len, bm := fs.pd.bm } { start := fs.pd.hdr.i2eStart, len := fs.pd.hdr.i2eLen }
       ((allNodes T).drop fs.pd.hdr.i2eLen)).1 ++ [MemUpd.setRuns (logRuns (scan cs).ckpt cs)]).foldl applyUpd m1 = mF
-    at o1 o2 o3 o4 o5 o6 o7 o8 o9 o10 o11 o12
-  have hpmL : lastPm (memUpds (nodesA cfg { pm := fs.pd.hdr, len := fs.pd.len } { start := fs.pd.hdr.i2eStart, len := fs.pd.hdr.i2eLen }
+    at o1 o2 o3 o4 o5 o6 o7 o8 o9 o10 o11 o12 o13
+  have hpmL : lastPm (memUpds (nodesA cfg { pm := fs.pd.hdr, len := fs.pd.len, bm := fs.pd.bm } { start := fs.pd.hdr.i2eStart, len := fs.pd.hdr.i2eLen }
       ((allNodes T).drop fs.pd.hdr.i2eLen)).1) fs.pd.hdr = _ := hMF.pm
-  have hstL : lastStart (memUpds (nodesA cfg { pm := fs.pd.hdr, len := fs.pd.len } { start := fs.pd.hdr.i2eStart, len := fs.pd.hdr.i2eLen }
+  have hstL : lastStart (memUpds (nodesA cfg { pm := fs.pd.hdr, len := fs.pd.len, bm := fs.pd.bm } { start := fs.pd.hdr.i2eStart, len := fs.pd.hdr.i2eLen }
       ((allNodes T).drop fs.pd.hdr.i2eLen)).1) fs.pd.hdr.i2eStart = _ := hMF.start
+  have hbmL : lastBm (memUpds (nodesA cfg { pm := fs.pd.hdr, len := fs.pd.len, bm := fs.pd.bm } { start := fs.pd.hdr.i2eStart, len := fs.pd.hdr.i2eLen }
+      ((allNodes T).drop fs.pd.hdr.i2eLen)).1) fs.pd.bm = _ := hMF.bm
   constructor
   · have hFr : Frame fs.pd fsF.pd := hNGF.frame
     refine { pj := hSF.1,
@@ -205,12 +209,13 @@ theorem open_safe {cfg : Cfg} {T : List Tx} {fs : FS} (hsync : cfg.syncSlot = tr
              log := hlog,
              pager := hNGF.pagerOK hp.booted (by rw [hlenN]; exact Nat.le_refl _),
              store := hFr.store hst,
-             full := ?_, mpm := ?_, mlen := ?_, mstart := ?_, mexts := ?_, mruns := o5, msegs := ?_, mroot := ?_,
+             full := ?_, mpm := ?_, mbm := ?_, mlen := ?_, mstart := ?_, mexts := ?_, mruns := o5, msegs := ?_, mroot := ?_,
              mptop := ?_, mepoch := ?_, mtxid := ?_, mwal := ?_ }
-    · rw [hSF.2, lenF, hlenN]
-    · rw [o1, e_pm, hpmL, hSF.2]
+    · rw [← hSF.2.1.len, lenF, hlenN]
+    · rw [o1, e_pm, hpmL]; exact hSF.2.1
+    · rw [o13, e_bm, hbmL]; exact hSF.2.2
     · rw [o3, e_len, hMF.inc, hlenN]
-    · rw [o2, e_st, hstL, idsF, hSF.2]
+    · rw [o2, e_st, hstL, idsF, hSF.2.1.start]
     · rw [o4, e_exts, hMF.push, List.take_append_drop]
     · rw [o6, e_segs]
       have : segEdges fsF.pd = segEdges fs.pd := by funext k; simp [segEdges, segFind, hFr.segs]
